@@ -231,7 +231,7 @@ ADDENDA = {
     "C06": "Also decides: (R06.c) every collected bounds map reaches the solver through one unified list; (R06.d) the own-default exemption is an identity test; by model extraction (R06.e): the whole call-checking stack from check_call_preprocessed down to the can_assign methods and TypeObject is interpreted from its AST for non-generic signatures of 1-2 parameters with nominal annotations and literal arguments (60,000 / 390,000 calls): diagnosed <=> the call does not bind or an argument is outside its parameter's declared type.",
     "C07": "Also decides: (R07.e) actual parameters are marked consumed only when paired with a named expected parameter; by model extraction (R07.f/g): Signature.can_assign is interpreted from its AST for every pair of def-legal signatures (expected <= 3/4 parameters, actual <= 3 under every naming from a pool of 4; 334,952 / 959,896 pairs) - every accepted pair must let each call shape (<= 3 positionals, <= 3 keywords) that binds to the expected signature bind to the actual one, and every argument flow of a commonly bound shape must have had its annotation pair compared.",
     "C08": "By model extraction: (R08.f) OverloadedSignature.check_call and _unite_rets are interpreted from their AST with overloads as model objects following the documented single-overload contract, for every set of 2-3 (thorough 4) overloads x every argument (atom, union, Any): plain arguments are typed by the first accepting overload and diagnosed iff none accepts; unions are accepted iff every member is, with each member's own result in the type; Any never selects one overload's type when several match. Also decides: (R08.e) union decomposition for positional and keyword arguments alike.",
-    "C09": "Also decides: (R09.e) the scope synthesised for a suppressing with-block keeps LEAVES_LOOP; by model extraction (R09.f): the control-flow visitors and the scope machinery are interpreted from their AST in the collecting phase on ~900 generated function bodies (if / while / for with else, break, continue, return, try / except / else / finally, opaque calls, one level of nesting); for every reachable use of a local the recorded definitions lie between the strict and the liberal reaching-definitions sets of an independent analysis, and the unbound state is recorded iff some path leaves the name unbound.",
+    "C09": "Also decides: (R09.e) the scope synthesised for a suppressing with-block keeps LEAVES_LOOP; by model extraction (R09.f): the control-flow visitors and the scope machinery are interpreted from their AST in the collecting phase on ~1000 generated function bodies (if / while / for with else, break, continue, return, try / except / else / finally, suppressing and non-suppressing with blocks, dead statements after jumps, opaque calls, one level of nesting); for every reachable use of a local the recorded definitions lie between the strict and the liberal reaching-definitions sets of an independent analysis, and the unbound state is recorded iff some path leaves the name unbound.",
     "C10": "Also decides: (R10.4) caches shared between files are keyed by everything the cached value depends on.",
     "C11": "Also decides, by model extraction: (R11.7) show_error, has_file_level_ignore, _lines, is_enabled and get_unused_ignores are interpreted from their AST on every file of <= 3 lines from 11 line kinds x every sequence of <= 2 raw diagnostics x every set of enabled codes (~83,000 runs): reported = enabled and not suppressed by a documented ignore form; used / unused ignore comments are exactly those that did / did not suppress something; the used set does not depend on the enabled codes.",
     "C12": "Also decides: (R12.5) format()/payload operations on user objects run under an exception guard; (R12.6) payload comparisons go through safe_equals or an except clause.",
